@@ -810,6 +810,57 @@ Theorem k8s_timeout_drops : forall c tl e s co,
   = Ok ({| ebuf := [QUOTE]; esize := 0; skipNext := s; cutOff := false |}, (ADiscard, 0, None, false)).
 Proof. intros. cbn [k_do]. rewrite k_reset_quote. reflexivity. Qed.
 
+(* ---- after a time-out the action should be as good as new (k_spec_t) ------------------------------
+   It is not: skipNextEvent survives the time-out (k8s_timeout_drops), so when the line that timed out had exceeded
+   max_event_size, the NEXT line - which the processor may take from any other stream, the action is not busy any
+   more - is swallowed up to its end.  Witness: max_event_size 9; "0123456789" (does not fit), time-out, "ok\n"
+   (a complete line: must pass untouched, is discarded), "next\n". *)
+Definition k8s_fresh_witness : list kin :=
+  [KChunk [34; 48; 49; 50; 51; 52; 53; 54; 55; 56; 57; 34]%N 50; KTimeout;
+   KChunk [34; 111; 107; 92; 110; 34]%N 43; KChunk [34; 110; 101; 120; 116; 92; 110; 34]%N 45].
+
+Theorem k8s_timeout_fresh_refuted :
+  exists c xs, konly c = false /\ forallb frag_ok xs = true /\
+    is_ok (snd (k_run c kstate0 xs)) = true /\
+    fst (k_run c kstate0 xs) <> k_spec_t c [] xs /\
+    map (fun o : kstep => fst (fst (fst o))) (fst (k_run c kstate0 xs)) = [ACollapse; ADiscard; ADiscard; APass] /\
+    map (fun o : kstep => fst (fst (fst o))) (k_spec_t c [] xs) = [ACollapse; ADiscard; APass; APass].
+Proof.
+  exists {| kmax := 9; ksplit := 524288; kcut := false; kfield := false; konly := false |}, k8s_fresh_witness.
+  vm_compute. repeat split; try reflexivity. intro H; discriminate H.
+Qed.
+
+(* the strongest restriction that is true of the code for EVERY placement of time-outs: without a size limit
+   (max_event_size = 0: nothing is ever skipped) every step is k_spec_t *)
+Lemma k_run_spec_t : forall c, konly c = false -> kmax c = 0 ->
+  forall xs hist st, kinv c st hist -> forallb frag_ok xs = true ->
+  exists st', k_run c st xs = (k_spec_t c hist xs, Ok st').
+Proof.
+  intros c Ho Hm. induction xs as [|x r IH]; intros hist st Hinv Hok.
+  - exists st. reflexivity.
+  - cbn [forallb] in Hok. apply andb_true_iff in Hok. destruct Hok as [Hfx Hok].
+    destruct x as [|f sz].
+    + (* time-out: the buffer is reset; with max_event_size = 0 nothing else is set *)
+      destruct Hinv as [_ [_ Hst]]. rewrite Hm, first_unfit_zero in Hst. destruct Hst as [Hs [Hc He]].
+      destruct st as [eb es sk co]. cbn [ebuf skipNext cutOff] in Hs, Hc, He. subst eb sk co.
+      cbn [k_run k_spec_t]. rewrite k8s_timeout_drops.
+      destruct (IH [] _ (kinv_init c) Hok) as [st' Hr]. rewrite Hr. exists st'. reflexivity.
+    + cbn [frag_ok] in Hfx. assert (Hf : 2 <= len f) by lia.
+      destruct (k_step_spec c st hist f sz Ho Hinv Hf) as [st1 [Hdo Hinv1]].
+      cbn [k_run k_spec_t]. rewrite Hdo. fold (step_term c hist f sz). fold (step_inc c hist f).
+      destruct (step_term c hist f sz).
+      * destruct (IH [] st1 Hinv1 Hok) as [st' Hr]. rewrite Hr. exists st'. reflexivity.
+      * destruct (IH _ st1 Hinv1 Hok) as [st' Hr]. rewrite Hr. exists st'. reflexivity.
+Qed.
+
+Theorem k8s_timeout_fresh_partial : forall c xs,
+  konly c = false -> kmax c = 0 -> forallb frag_ok xs = true ->
+  exists st, k_run c kstate0 xs = (k_spec_t c [] xs, Ok st).
+Proof.
+  intros c xs Ho Hm Hok. apply (k_run_spec_t c Ho Hm xs [] kstate0); try assumption.
+  apply kinv_init.
+Qed.
+
 (* ---- the raw text behind the escaped fragment: insane-json's escaper is an oracle ----------------- *)
 Definition last_is_nl (raw : bytes) : bool :=
   match rev raw with c :: _ => N.eqb c 10%N | [] => false end.
